@@ -154,6 +154,33 @@ def run(ctx: Ctx) -> None:
             elif not torch.allclose(gW, gWr, rtol=1e-11, atol=1e-13):
                 ctx.violation("C06:branch-weight-grad", "branch weight gradient is not the unattenuated one", key)
 
+    # ---- the branch works in place on what it is given (F.silu(t, inplace=True), t.mul_(c)): split hands it its own
+    #      tensor, so neither the skip stream nor the caller's x may change, with or without requires_grad on x
+    for ci in range(12 if quick else 200):
+        tau = math.exp(rng.uniform(math.log(1e-2), math.log(1e2)))
+        rg = ci % 2 == 0
+        key = {"inplace_branch": True, "tau": tau, "x_requires_grad": rg, "via": "apply" if ci % 4 < 2 else "split-add"}
+        ctx.count(key, bucket="inplace-branch")
+        x0 = torch.randn(3, 5, dtype=dt)
+        x = x0.clone().requires_grad_(rg)
+        with ctx.guard("C06:inplace-call", key):
+            def f(z):
+                z = z * 1.0 if z.requires_grad and z.is_leaf else z      # a leaf requiring grad cannot be modified in place
+                return torch.nn.functional.silu(z.mul_(1.5), inplace=True)
+
+            if ci % 4 < 2:
+                y = U.residual_apply(f, x, tau)
+            else:
+                res, skip = U.residual_split(x, tau)
+                y = U.residual_add(f(res), skip, tau)
+            want = (x0 + tau * torch.nn.functional.silu(x0 * 1.5)) / math.sqrt(1 + tau * tau)
+            if not torch.equal(x.detach(), x0):
+                ctx.violation("C06:caller-modified", "an in-place op inside the branch changed the caller's x (split does not hand "
+                              "the branch its own tensor)", key)
+            elif not torch.allclose(y.detach(), want, rtol=1e-11, atol=1e-13):
+                ctx.violation("C06:inplace-forward", "with an in-place branch the layer no longer computes (x + tau f(x))/sqrt(1+tau^2)",
+                              key, float((y.detach() - want).abs().max()))
+
     # ---- stacks: sequential and nested, 1..8 layers
     n_st = 60 if quick else 1500
     for ci in range(n_st):
